@@ -1,22 +1,28 @@
-\* history generation (simulate): complete creation, then {modify, delete, restore[tasks], remodel[tasks], create again}
 CONSTANTS
-  Trees <- TreesPickH
+  Trees <- TreesH
   Chunks = 2
   LockChunks = 2
   TaskArgs <- TaskArgsDef
   OpsIds <- Ops2
   MaxCrash = 0
   MaxCreate = 2
-  MaxHist = 5
+  MaxHist = 3
   MaxHistUnlisted = 1
   RECORD_FIRST = FALSE
   OVERWRITE = FALSE
   READ_LIVE = FALSE
 SPECIFICATION Spec
-INVARIANT EmitHist
+VIEW View
+INVARIANT TypeOK
 INVARIANT NeverHalfValid
 INVARIANT NoOverwrite
+INVARIANT CreatedIsListed
 INVARIANT RestoreIdentity
+INVARIANT RestoreWorks
 INVARIANT RestoreTasksOnlyThose
+INVARIANT RestoreTouchesOnlyRecorded
+INVARIANT RestoredAreOriginals
 INVARIANT RemodelFromOriginals
 INVARIANT RemodelIdempotent
+INVARIANT RemodelAbortOnlyUnbacked
+INVARIANT FailedChangesNothing
